@@ -1,4 +1,4 @@
-import MoneroModel.Proofs.AmountText8
+import MoneroModel.Proofs.AmountText9
 open Monero Monero.AmtText
 /-! # C15 — amount text parsing and formatting are exact decimal conversions
 
@@ -197,6 +197,122 @@ theorem C15_fmt_suffix_exact (signed : Bool) (d : Denom) (a : Int) (hu : signed 
   unfold toStringWithDenomination Spec.Decimal.specFormatWithDenomination
   rw [(C15_fmt_exact signed d a hu).1, C15_denomination_names.1 d]
 
+/-! ## Added: the complement of the round trip, injectivity of the formatter, `Display`, totality of the generated tables -/
+
+/-- the suffix form of a formatted amount is parsed by parsing its value part in the denomination that was written -/
+theorem C15_suffix_reduces (signed : Bool) (d : Denom) (a : Int) (hu : signed = false → 0 ≤ a) :
+    fromStrWithDenomination signed (toStringWithDenomination signed a d) = fromStrIn signed (toStringIn signed a d) d := by
+  unfold fromStrWithDenomination toStringWithDenomination
+  have hns : NoSpace (toStringIn signed a d) := by
+    rw [(C15_fmt_exact signed d a hu).1]; exact NoSpace_specFormat _ _
+  have h1 : toStringIn signed a d ++ [0x20] ++ displayOf d = toStringIn signed a d ++ 0x20 :: displayOf d := by simp
+  rw [h1, splitSpace_append _ _ hns]
+  simp only
+  rw [(display_roundtrip d).2]
+  simp only
+  rw [(display_roundtrip d).1]
+
+/-- **round trip, both directions, every magnitude.** Parsing a formatted amount (any u64 / any i64) returns a value iff
+the amount has magnitude at most `2^63 − 1`, and then it returns exactly that amount — never another value -/
+theorem C15_parse_fmt_iff (signed : Bool) (d : Denom) (a : Int) (hu : signed = false → 0 ≤ a) (hr : a.natAbs < 2 ^ 64) (r : Int) :
+    (fromStrIn signed (toStringIn signed a d) d = .ok r ↔ (r = a ∧ a.natAbs ≤ 2 ^ 63 - 1)) ∧
+    (fromStrWithDenomination signed (toStringWithDenomination signed a d) = .ok r ↔ (r = a ∧ a.natAbs ≤ 2 ^ 63 - 1)) := by
+  have h1 : fromStrIn signed (toStringIn signed a d) d = .ok r ↔ (r = a ∧ a.natAbs ≤ 2 ^ 63 - 1) := by
+    rw [(C15_fmt_exact signed d a hu).1, C15_parse_iff, specParse_specFormat_iff]
+    have hm : maxAmount = 2 ^ 63 - 1 := rfl
+    have hlen : (specFormat (decimals d) a).length ≤ 50 := by
+      have := decimals_le d
+      exact specFormat_length _ _ (by omega) (by omega)
+    have hsg : a < 0 → signed = true := by
+      intro hneg
+      cases signed with
+      | true => rfl
+      | false => have := hu rfl; omega
+    rw [hm]
+    exact ⟨fun h => ⟨h.1, h.2.1⟩, fun h => ⟨h.1, h.2, hsg, hlen⟩⟩
+  exact ⟨h1, by rw [C15_suffix_reduces signed d a hu]; exact h1⟩
+
+/-- **complement of the round trip.** A formatted amount of magnitude above `2^63 − 1` (an `Amount` above `i64::MAX`, or
+`SignedAmount::min_value()`) is refused by both parsers — it is not read back as some other value -/
+theorem C15_parse_fmt_out_of_range (signed : Bool) (d : Denom) (a : Int) (hu : signed = false → 0 ≤ a) (hr : a.natAbs < 2 ^ 64)
+    (h : a.natAbs > 2 ^ 63 - 1) :
+    (∃ e, fromStrIn signed (toStringIn signed a d) d = .error e) ∧
+    (∃ e, fromStrWithDenomination signed (toStringWithDenomination signed a d) = .error e) := by
+  constructor
+  · rcases except_ok_or_error (fromStrIn signed (toStringIn signed a d) d) with ⟨r, hr'⟩ | he
+    · have := ((C15_parse_fmt_iff signed d a hu hr r).1.mp hr').2; omega
+    · exact he
+  · rcases except_ok_or_error (fromStrWithDenomination signed (toStringWithDenomination signed a d)) with ⟨r, hr'⟩ | he
+    · have := ((C15_parse_fmt_iff signed d a hu hr r).2.mp hr').2; omega
+    · exact he
+
+/-- **the formatter is injective** (per denomination; any two amounts of the type): distinct amounts never share a text -/
+theorem C15_fmt_injective (signed : Bool) (d : Denom) (a b : Int) (ha : signed = false → 0 ≤ a) (hb : signed = false → 0 ≤ b)
+    (h : toStringIn signed a d = toStringIn signed b d) : a = b := by
+  rw [(C15_fmt_exact signed d a ha).1, (C15_fmt_exact signed d b hb).1] at h
+  exact specFormat_injective _ a b h
+
+/-- **`Display`** (the denomination is hard-wired to `Monero`) is the specified string with 12 decimals and the suffix `xmr`,
+and `FromStr` reads it back for every magnitude up to `2^63 − 1` -/
+theorem C15_display_roundtrip (signed : Bool) (a : Int) (hu : signed = false → 0 ≤ a) :
+    display signed a = Spec.Decimal.specFormatWithDenomination .Monero a ∧
+    (a.natAbs ≤ 2 ^ 63 - 1 → fromStrWithDenomination signed (display signed a) = .ok a) :=
+  ⟨C15_fmt_suffix_exact signed .Monero a hu, fun hmag => C15_parse_fmt_suffix signed .Monero a hu hmag⟩
+
+/-- the generated precision and `Display` tables have exactly one row per denomination, in declaration order (so the
+`getD` defaults of `precisionOf` / `displayOf` are never used: no row can be missing for the wrong reason) -/
+theorem C15_tables_total :
+    Gen.precision.map (·.1) = Denom.all ∧ Gen.denomDisplay.map (·.1) = Denom.all ∧
+    (∀ d, ∃ p, Gen.precision.lookup d = some p) ∧ (∀ d, ∃ n, Gen.denomDisplay.lookup d = some n ∧ n ≠ []) := by
+  refine ⟨by decide, by decide, ?_, ?_⟩
+  · intro d; cases d <;> exact ⟨_, rfl⟩
+  · intro d; cases d <;> exact ⟨_, rfl, by decide⟩
+
+/-- **the parser's constants and arithmetic sites, as read from the current source**: the length test is `s.len() > 50`
+(observed on all-zero literals, cross-checked with the literal in the source), the three arithmetic sites call
+`checked_mul`, `checked_add`, `checked_mul`, and both `from_str_in` bodies still have the reviewed shape (cap
+`> i64::max_value() as u64` for both types, `negative` refused by the unsigned type). These are the hand-copied constants
+`50`, `U64MAX`, `I64MAX` of `Model/AmountText.lean` tied to the regenerated `Gen` values -/
+theorem C15_parser_constants :
+    Gen.amtMaxLen = 50 ∧ Gen.amtMaxLen = Spec.Decimal.maxLen ∧
+    Gen.amtParseMul = some .checked_mul ∧ Gen.amtParseAdd = some .checked_add ∧ Gen.amtRescaleMul = some .checked_mul ∧
+    Gen.shape_Amount_from_str_in = true ∧ Gen.shape_SignedAmount_from_str_in = true := by decide
+
+/-- **the model's overflow tests ARE the std methods named in the source.** Evaluating the methods the translator read at the
+three arithmetic sites (on u64, `Model/StdInt`) gives exactly the comparisons `10·v > 2^64−1`, `10·v + d > 2^64−1` that
+`parseLoop` and `rescale` use — for every accumulator value of the type and every digit. With a `wrapping_*` /
+`saturating_*` method at a site this statement is false (e.g. `v = 2^63`, where `wrapping_mul` returns `2^64·5 mod 2^64 = 0`) -/
+theorem C15_checked_steps (v dgt : Nat) (hv : v ≤ U64MAX) (hd : dgt ≤ 9) :
+    genDigitStep v dgt = (if 10 * v > U64MAX then none else if 10 * v + dgt > U64MAX then none else some ((10 * v + dgt : Nat) : Int)) ∧
+    genRescaleStep v = (if 10 * v > U64MAX then none else some ((10 * v : Nat) : Int)) := by
+  have hu : U64MAX = 2 ^ 64 - 1 := rfl
+  have hfit : ∀ x : Int, TyU64.fits x ↔ (0 ≤ x ∧ x ≤ 2 ^ 64 - 1) := by intro x; unfold IntTy.fits TyU64; simp
+  constructor
+  · simp only [genDigitStep, Gen.amtParseMul, Gen.amtParseAdd, StdOp.eval, IntTy.chk]
+    by_cases h1 : 10 * v > U64MAX
+    · have : ¬ TyU64.fits (10 * (v : Int)) := by rw [hfit]; omega
+      rw [if_neg this, if_pos h1]; rfl
+    · have : TyU64.fits (10 * (v : Int)) := by rw [hfit]; omega
+      rw [if_pos this, if_neg h1]
+      simp only [Option.bind_some]
+      by_cases h2 : 10 * v + dgt > U64MAX
+      · have : ¬ TyU64.fits (10 * (v : Int) + (dgt : Int)) := by rw [hfit]; omega
+        rw [if_neg this, if_pos h2]
+      · have : TyU64.fits (10 * (v : Int) + (dgt : Int)) := by rw [hfit]; omega
+        rw [if_pos this, if_neg h2]
+        congr 1
+  · simp only [genRescaleStep, Gen.amtRescaleMul, StdOp.eval, IntTy.chk]
+    by_cases h1 : 10 * v > U64MAX
+    · have : ¬ TyU64.fits (10 * (v : Int)) := by rw [hfit]; omega
+      rw [if_neg this, if_pos h1]
+    · have : TyU64.fits (10 * (v : Int)) := by rw [hfit]; omega
+      rw [if_pos this, if_neg h1]
+      congr 1
+
+/-- the formulation does exclude a wrapping site: with `wrapping_mul` the digit step at `v = 2^63` would return a value
+(test of the statement, not a theorem about /repo) -/
+example : (StdOp.wrapping_mul.eval TyU64 10 (2 ^ 63)) = some 0 ∧ (StdOp.checked_mul.eval TyU64 10 (2 ^ 63)) = none := by decide
+
 /-! The hypotheses are satisfiable / the statements are not vacuous. -/
 example : fromStrIn false [0x31, 0x2e, 0x35] .Monero = .ok 1500000000000 := (C15_parse_iff _ _ _ _).mpr (by decide)
 example : fromStrIn true [0x2d, 0x2e] .Monero = .ok 0 := (C15_parse_iff _ _ _ _).mpr (by decide)
@@ -204,5 +320,7 @@ example : fromStrIn false [0x2d, 0x30] .Monero ≠ .ok 0 := fun h => absurd ((C1
 example : toStringIn true (-(2 ^ 63)) .Monero = "-9223372.036854775808".toList.map (fun c => UInt8.ofNat c.toNat) := by
   rw [(C15_fmt_exact true .Monero _ (by intro h; cases h)).1]; decide
 example : ∃ a : Int, a.natAbs ≤ 2 ^ 63 - 1 ∧ a < 0 := ⟨-1, by decide, by decide⟩
+example : ∃ a : Int, a.natAbs < 2 ^ 64 ∧ a.natAbs > 2 ^ 63 - 1 ∧ 0 ≤ a := ⟨2 ^ 63, by decide, by decide, by decide⟩
+example : ∃ a : Int, a.natAbs < 2 ^ 64 ∧ a.natAbs > 2 ^ 63 - 1 ∧ a < 0 := ⟨-(2 ^ 63), by decide, by decide, by decide⟩
 
 end C15
